@@ -133,6 +133,13 @@ func runC07(c *vk.Ctx) {
 			cfg.Language = "nor"
 		}
 		hist := a.History(r, r.Range(3, 25))
+		if i%4 == 3 {
+			// a pre-VM "first" function without side effects: it runs once for the long-lived engine and on every
+			// request for the per-request engines, and must not be visible in what the client sees
+			a.Funcs["_first"] = &app.FuncSpec{Sym: "_first", Kind: "idlang"}
+			cfg.First = true
+			c.Count("histories_with_benign_first_function", 1)
+		}
 		c.Begin(key)
 		c07Compare(c, key, a, cfg, hist, i < 1)
 	}
